@@ -1,15 +1,139 @@
 (** C11  Merkle proofs for accounts and contract variables are sound and complete.
     Only statements, each closed by [exact] of a lemma proved in coq/Trie/, followed by
     [Print Assumptions].  Model: coq/Trie/Proof.v (mirrors pkg/trie/trie_merkle_proof.go
-    after the F2 repair). *)
+    after the F2 repair).  Keys are 256-bit strings [kbits]; the verifier sees their packing
+    [bits_to_bytes kbits].  [hash_break H] = collision or DefaultLeaf shift pair
+    (HashBind.v).  [ap_ok] = every audit node is 32 bytes or DefaultLeaf (checkable). *)
 From Coq Require Import List Bool Arith NArith.
-From Verif Require Import Trie.Model Trie.Proof Trie.ProofBasics.
+From Verif Require Import Trie.Model Trie.Basics Trie.HashBind Trie.Proof Trie.ProofBasics
+  Trie.ProofSound Trie.ProofTop Trie.ProofComplete.
 Import ListNotations.
 
-(** F2 repaired: a non-inclusion proof whose proof leaf holds the queried key is rejected,
-    whatever the audit path. *)
+(** Completeness, present key: the proof merkleProof generates is accepted by VerifyInclusion
+    for the stored value.  Every well-formed trie, every key. *)
+Theorem C11_proof_complete_present :
+  forall (H : bytes -> bytes) t kbits v mp inc pk pv,
+  wf 256 t -> length kbits = 256 -> get t kbits = Some v ->
+  mproof H 256 [] t kbits = (mp, inc, pk, pv) ->
+  inc = true /\ pv = v /\ verify_inclusion H (root H 256 t) mp (bits_to_bytes kbits) v = true.
+Proof. exact proof_complete_present. Qed.
+Print Assumptions C11_proof_complete_present.
+
+(** Completeness, absent key (empty subtree on the path: pk = []; foreign leaf on the path:
+    pk = that leaf's key), every NON-EMPTY well-formed trie. *)
+Theorem C11_proof_complete_absent :
+  forall (H : bytes -> bytes) t kbits mp inc pk pv,
+  wf 256 t -> t <> E -> length kbits = 256 -> get t kbits = None ->
+  mproof H 256 [] t kbits = (mp, inc, pk, pv) ->
+  inc = false /\ verify_non_inclusion H (root H 256 t) mp (bits_to_bytes kbits) pv pk = true.
+Proof. exact proof_complete_absent. Qed.
+Print Assumptions C11_proof_complete_absent.
+
+(** F25 (refutation of completeness for the empty trie): the honest proof of absence
+    against the nil root is rejected. *)
+Theorem C11_proof_complete_absent_refuted_empty_trie :
+  forall (H : bytes -> bytes) kbits,
+  let '(mp, inc, pk, pv) := mproof H 256 [] E kbits in
+  inc = false /\ verify_non_inclusion H (root H 256 E) mp (bits_to_bytes kbits) pv pk = false.
+Proof. exact empty_trie_proof_rejected. Qed.
+Print Assumptions C11_proof_complete_absent_refuted_empty_trie.
+
+(** Compressed proofs: decompressing an honest compression gives back the audit path, so the
+    compressed verifiers accept it exactly when the plain verifiers accept the plain proof. *)
+Theorem C11_compress_decompress :
+  forall mp, let '(bm, apc, n) := compress mp in rev (decomp bm n (rev apc)) = mp.
+Proof. exact compress_decompress. Qed.
+Print Assumptions C11_compress_decompress.
+
+Theorem C11_compressed_complete :
+  forall (H : bytes -> bytes) root mp key value pk,
+  let '(bm, apc, n) := compress mp in
+  verify_inclusion_c H root bm key value apc n = verify_inclusion H root mp key value /\
+  verify_non_inclusion_c H root apc n bm key value pk = verify_non_inclusion H root mp key value pk.
+Proof. exact compressed_complete. Qed.
+Print Assumptions C11_compressed_complete.
+
+(** Soundness of VerifyInclusion: an accepted (key, value) is stored with that value. *)
+Theorem C11_inclusion_sound :
+  forall (H : bytes -> bytes), (forall x, length (H x) = 32) ->
+  forall t ap kbits value,
+  wf 256 t -> vals32 t -> length kbits = 256 -> length value = 32 -> ap_ok ap ->
+  verify_inclusion H (root H 256 t) ap (bits_to_bytes kbits) value = true ->
+  get t kbits = Some value \/ hash_break H.
+Proof. exact inclusion_sound. Qed.
+Print Assumptions C11_inclusion_sound.
+
+(** Non-transplantability: a proof (of any length, i.e. claimed height) is accepted for a
+    key/value pair that the trie with that root does not hold only if H is broken.  Covers a
+    different value, presence of an absent key, another key, another root, another height
+    (the leaf hash includes the height byte and has a 65-byte preimage, interior nodes
+    64/33). *)
+Theorem C11_proof_not_transplantable :
+  forall (H : bytes -> bytes), (forall x, length (H x) = 32) ->
+  forall t ap kbits value,
+  wf 256 t -> vals32 t -> length kbits = 256 -> length value = 32 -> ap_ok ap ->
+  get t kbits <> Some value ->
+  verify_inclusion H (root H 256 t) ap (bits_to_bytes kbits) value = true -> hash_break H.
+Proof. exact proof_not_transplantable. Qed.
+Print Assumptions C11_proof_not_transplantable.
+
+(** Soundness of VerifyNonInclusion with a foreign proof leaf: accepted => key absent. *)
+Theorem C11_non_inclusion_foreign_sound :
+  forall (H : bytes -> bytes), (forall x, length (H x) = 32) ->
+  forall t ap kbits pkbits value,
+  wf 256 t -> vals32 t -> length kbits = 256 -> length pkbits = 256 -> length value = 32 -> ap_ok ap ->
+  verify_non_inclusion H (root H 256 t) ap (bits_to_bytes kbits) value (bits_to_bytes pkbits) = true ->
+  get t kbits = None \/ hash_break H.
+Proof. exact non_inclusion_foreign_sound. Qed.
+Print Assumptions C11_non_inclusion_foreign_sound.
+
+(** Soundness of VerifyNonInclusion with an empty proofKey — PARTIAL: only for audit paths
+    whose nodes are DefaultLeaf or hash outputs, which a verifier cannot check. *)
+Theorem C11_non_inclusion_empty_sound_partial :
+  forall (H : bytes -> bytes), (forall x, length (H x) = 32) ->
+  forall t ap kbits value,
+  wf 256 t -> vals32 t -> length kbits = 256 -> ap_hashes H ap ->
+  verify_non_inclusion H (root H 256 t) ap (bits_to_bytes kbits) value [] = true ->
+  get t kbits = None \/ hash_break H.
+Proof. exact non_inclusion_empty_sound_partial. Qed.
+Print Assumptions C11_non_inclusion_empty_sound_partial.
+
+(** F24 (refutation of the full statement, for every H): if the hash of the right child of
+    a node with an empty left side ends in a zero byte, the audit path [0 :: z] with a
+    DefaultLeaf leaf is accepted as proof of absence of a key that is stored below it. *)
+Theorem C11_non_inclusion_empty_sound_refuted :
+  forall (H : bytes -> bytes) (r : tree bytes) z k' v value,
+  length k' = 255 -> get r k' = Some v -> th H 255 [true] r = z ++ [0%N] ->
+  get (Nd E r) (true :: k') = Some v /\
+  verify_non_inclusion H (root H 256 (Nd E r)) [0%N :: z] (bits_to_bytes (true :: k')) value [] = true.
+Proof. exact non_inclusion_forgery_present. Qed.
+Print Assumptions C11_non_inclusion_empty_sound_refuted.
+
+(** F2 repaired: a non-inclusion proof whose proof leaf holds the queried key is rejected. *)
 Theorem C11_non_inclusion_rejects_own_key :
   forall (H : bytes -> bytes) root ap key value,
   key <> [] -> verify_non_inclusion H root ap key value key = false.
 Proof. exact non_inclusion_rejects_own_key. Qed.
 Print Assumptions C11_non_inclusion_rejects_own_key.
+
+(** The compressed verifiers are the plain verifiers on the decompressed audit path; hence
+    their soundness. *)
+Theorem C11_inclusion_c_sound :
+  forall (H : bytes -> bytes), (forall x, length (H x) = 32) ->
+  forall t bm ap n kbits value,
+  wf 256 t -> vals32 t -> length kbits = 256 -> length value = 32 ->
+  ap_ok (decomp bm n (rev ap)) ->
+  verify_inclusion_c H (root H 256 t) bm (bits_to_bytes kbits) value ap n = true ->
+  get t kbits = Some value \/ hash_break H.
+Proof. exact inclusion_c_sound. Qed.
+Print Assumptions C11_inclusion_c_sound.
+
+Theorem C11_non_inclusion_c_foreign_sound :
+  forall (H : bytes -> bytes), (forall x, length (H x) = 32) ->
+  forall t bm ap n kbits pkbits value,
+  wf 256 t -> vals32 t -> length kbits = 256 -> length pkbits = 256 -> length value = 32 ->
+  ap_ok (decomp bm n (rev ap)) ->
+  verify_non_inclusion_c H (root H 256 t) ap n bm (bits_to_bytes kbits) value (bits_to_bytes pkbits) = true ->
+  get t kbits = None \/ hash_break H.
+Proof. exact non_inclusion_c_foreign_sound. Qed.
+Print Assumptions C11_non_inclusion_c_foreign_sound.
